@@ -325,6 +325,31 @@ def wop(c, ty, name):
 OPS = "FutureOps::"
 
 
+RULES = {
+    "R20.1": "witnesses: FutureWriter::write / FutureReader::into_future consume their end (E0382), a writer is not Clone",
+    "R20.2": "Drop for FutureWriter: flag set => write_and_forget(take(raw), (default)()), else ManuallyDrop::drop(raw); "
+             "the flag is `true` at every construction and never stored `false`",
+    "R20.3": "Drop for FutureWrite: not done => FutureWrite::cancel, result dropped (not leaked); is_done <=> Done; a "
+             "cancelled write rebuilds exactly one FutureWriter around the writer handed back, keeping `default`",
+    "R20.4": "return-code constants and decode; per code the write op lifts back / frees lists exactly once from its own "
+             "buffer and builds the matching WriteComplete, the read op lifts exactly once only on Completed(0)",
+    "R20.5": "cancel tables: result_into_cancel, start_cancelled, FutureWrite::cancel map each outcome to the reported "
+             "result with the same value / writer / reader; in_progress_cancel calls the built-in of its direction and "
+             "returns its code",
+    "R20.6": "DeferredWrite::wake polls once under try_lock with a waker cloned from its own Arc and asserts the strong "
+             "count on both outcomes; write_and_forget starts the write and wakes it once",
+    "R20.7": "plumbing: FutureWriter::write forgets self; future_new / raw_future_new wire the ends (reader low half, "
+             "writer high half); start lowers then starts on its own buffer and returns the host's code; poll / cancel "
+             "forward to the operation; outcome closures; vtable forwarders call the same-named entry",
+    "R20.8": "reader handle: dropped once when live, not when taken; take_handle stores u32::MAX",
+    "R20.9": "who may drop a raw writable end: result_into_cancel (not its Cancelled arm, R20.5), the poll outcome "
+             "closure, ManuallyDrop::drop in Drop for FutureWriter; drop_writable only from RawFutureWriter::drop",
+    "R20.10": "generic driver: cancel in Start => start_cancelled only; Done => panic; the built-in's code and a code "
+              "already delivered are interpreted; results come from result_into_cancel; poll_complete_with_code hands "
+              "the delivered code to in_progress_update, Ok => Ready, Err => state stored back",
+}
+
+
 # ------------------------------------------------------------------------------------------------ entry point
 def run(rep, tier):
     rep.describe(
@@ -347,6 +372,8 @@ def run(rep, tier):
         assumptions=["native (x86_64) build of the runtime: extern_wasm! built-ins appear as shim functions",
                      "the host delivers CANCELLED only as the result of a cancel built-in"],
     )
+    for rid, text in RULES.items():
+        rep.rule(rid, text)
     for cfg in configs(tier):
         rep.guard("R20", f"config:{cfg}", lambda cfg=cfg: one(rep, rt(cfg), cfg))
     from .witness import run_witness
@@ -1143,7 +1170,7 @@ def one(rep, c, cfg):
                every_return_passes(f, [x.bb for x in ric] + [x.bb for x in f.calls("WaitableOp::start_cancelled")]),
                "a cancel outcome is made up without consulting the operation", f.loc())
         # a racing delivered code is interpreted before cancelling
-        tk = [x for x in f.calls("Option::take")]
+        tk = f.calls("Option::take")
         early = [p for p in pcs if not any(p.bb in f.reachable(x.bb) for x in ipc)]
         ok = False
         for p in early:
